@@ -900,15 +900,19 @@ class vPeriod(TimeBase):
             raise ValueError('end_or_duration MUST be a datetime, '
                              'date or timedelta instance')
         by_duration = 0
-        if isinstance(end_or_duration, timedelta):
-            by_duration = 1
-            duration = end_or_duration
-            end = start + duration
-        else:
-            end = end_or_duration
-            duration = end - start
-        if start > end:
-            raise ValueError("Start time is greater than end time")
+        try:
+            if isinstance(end_or_duration, timedelta):
+                by_duration = 1
+                duration = end_or_duration
+                end = start + duration
+            else:
+                end = end_or_duration
+                duration = end - start
+            if start > end:
+                raise ValueError("Start time is greater than end time")
+        except (TypeError, OverflowError) as e:
+            # date mixed with datetime, floating mixed with zoned, or out of range
+            raise ValueError(f"Start and end of a period do not fit together: {e}") from e
 
         self.params = Parameters({'value': 'PERIOD'})
         # set the timezone identifier
